@@ -643,6 +643,20 @@ func (c *Ctx) execBodyEdges(fr *Frame, st *State, reach T) (*State, T, Val, []re
 			}
 			c.obligeParts("invariant", fmt.Sprintf("%s:loop%d:preserved:%s", fk, ord, cl.name()), cl.Tags, reaches, goals, h.Instrs[0].Pos(), cl.Text, poss...)
 		}
+		if li := c.loopInfos[loopKey(c, fr, h)]; li != nil && fr.ct != nil {
+			for _, cl := range fr.ct.Steps {
+				if cl.Loop != ord || !cl.inSlice(c.prop) {
+					continue
+				}
+				var goals []T
+				for _, be := range bs {
+					env := c.loopEnv(fr, h, be.st)
+					env.iterHead = li.head
+					goals = append(goals, c.evalClause(env, cl))
+				}
+				c.obligeParts("invariant", fmt.Sprintf("%s:loop%d:step:%s", fk, ord, cl.name()), cl.Tags, reaches, goals, h.Instrs[0].Pos(), cl.Text, poss...)
+			}
+		}
 		if li := c.loopInfos[loopKey(c, fr, h)]; li != nil {
 			for _, be := range bs {
 				c.frameObligations(fmt.Sprintf("%s:loop%d:frame", fk, ord), li.head, be.st, li.modlocs, be.cond, li.pre.top, h.Instrs[0].Pos())
